@@ -327,6 +327,22 @@ def rule_literal_escapes(ctx):
             msgs.append("%r is not escaped by the writer" % must)
     ctx.check(ok and len(writer) >= 2, rule, "string:inverse", "quote_string and apply_string_escapes disagree: %s" % "; ".join(msgs),
               facts.bodies()[W]["loc"], detail={"writer": {k: v for k, v in writer.items()}, "reader": reader})
+    # every character of the text goes through the table: no early return, no second way to build the result
+    rets = [x for x in H.walk(hw["body"]) if H.kind(x) == "Ret"]
+    body = H.peel(hw["body"])
+    tail = H.peel(body.get("expr")) if isinstance(body, dict) and body.get("expr") is not None else None
+    acc = H.path_local(tail) if tail is not None else None
+    loops = [x for x in H.walk(hw["body"]) if H.kind(x) == "Match" and H.is_for(x)]
+    in_loop = set(id(y) for lp in loops for y in H.walk(lp))
+    outside_conditionals = [x for x in H.walk(hw["body"]) if H.kind(x) in ("If", "Match") and id(x) not in in_loop
+                            and not (H.kind(x) == "Match" and (H.is_for(x) or x.get("src")))]
+    over_chars = any("chars" in A.sexpr(H.for_parts(lp)[1], None) for lp in loops)
+    ctx.check(not rets and acc is not None and not outside_conditionals and over_chars and mw is not None and id(mw) in in_loop, rule,
+              "string:writer-total", "quote_string has a path that does not take every character through the escape table (%s): a fast "
+              "path that forgets one of the escaped characters (the delimiter) prints a literal that reads back as different text"
+              % ("early return" if rets else "conditional outside the character loop" if outside_conditionals else
+                 "result is not the accumulated text" if acc is None else "no loop over the characters"),
+              facts.bodies()[W]["loc"], detail={"shape": "accumulator; for ch in text.chars() { table }; accumulator"})
     # the printer
     fn = FORMATTER + "literal"
     h = ctx.need_hir(rule, fn)
